@@ -74,7 +74,14 @@ def rbytes(rng, n, style=None):
     return bytes(rng.randrange(256) for _ in range(n))
 
 
+MAGIC = [0, 1, 2, 3, 4, 5, 7, 9, 10, 16, 20, 24, 30, 31, 48, 52, 255, 256, 257, 0x0005, 0x0007, 0x0009, 0x000A, 0x00050000, 0x00070000, 0x0009000A]
+
+
 def rnat(rng, w):
+    if rng.random() < 0.12:
+        # a value that coincides with a constant of the protocols or of the source (version words, set ids, sizes)
+        pool = MAGIC + [v for v in LITERALS if v >= 0]
+        return rng.choice(pool) % (256 ** w)
     return int.from_bytes(rbytes(rng, w), "big")
 
 
@@ -139,9 +146,10 @@ def v9_template(rng, tid, nfields=None, lossless=False, common=False):
     return {"id": tid, "fieldCount": len(fields), "fields": fields}
 
 
-def v9_opt_template(rng, tid):
+def v9_opt_template(rng, tid, wild=False):
     ns, no = rng.randrange(1, 3), rng.randrange(1, 4)
-    scope = [{"typ": rng.choice([1, 2, 3, 4, 5]), "len": rng.choice([1, 2, 4])} for _ in range(ns)]
+    styps = [1, 2, 3, 4, 5] + ([0, 6, 255, 65535] if wild else [])
+    scope = [{"typ": rng.choice(styps), "len": rng.choice([1, 2, 4])} for _ in range(ns)]
     opts = [{"typ": rng.choice(list(V9_TYPES)), "len": rng.choice([1, 2, 4, 8])} for _ in range(no)]
     return {"id": tid, "scopeLen": 4 * ns, "optLen": 4 * no, "scope": scope, "opts": opts}
 
@@ -260,9 +268,11 @@ class Exporter:
                     self.dirty = True
                 sets.append({"templates": {"ts": ts, "pad": hx(bytes(padn))}})
             elif r < 0.45 and allow_opts:
-                ts = [v9_opt_template(rng, self.new_id()) for _ in range(rng.choice([1, 1, 2]))]
+                ts = [v9_opt_template(rng, self.new_id(), wild=self.wild) for _ in range(rng.choice([1, 1, 2]))]
                 for t in ts:
                     self.v9[t["id"]] = ("o", t)
+                    if any(f["typ"] not in (1, 2, 3, 4, 5) for f in t["scope"]):
+                        self.dirty = True      # scope types outside 1..5: outside the spec oracle
                 sets.append({"optTemplates": {"ts": ts, "pad": hx(bytes(rng.choice([0, 0, 2])))}})
             else:
                 tid = rng.choice(list(self.v9))
@@ -358,6 +368,21 @@ def fam_fixed(rng, n, max_recs=40):
         k = rng.choice([0, 1, 1, 2, 3, 30, rng.randrange(0, max_recs)])
         m = msg_v5(rng, k) if rng.random() < 0.5 else msg_v7(rng, k)
         out.append(("fixed", [op_new(0), op_parse(0, msgs=[m])]))
+    return out
+
+
+def fam_fixed_counts(rng, tier="quick"):
+    """V5/V7: EVERY record count 0..33 once (a count can coincide with a version number, a set id, a size constant),
+    alone and followed by another packet; plus large counts"""
+    out = []
+    big = [63, 64, 255, 256, 257] + ([1000, 1260, 1364] if tier != "quick" else [])
+    for v in (5, 7):
+        for k in list(range(0, 34)) + big:
+            if v == 7 and k > 1259:
+                continue
+            m = msg_v5(rng, k) if v == 5 else msg_v7(rng, k)
+            tail = [msg_v5(rng, 1)] if rng.random() < 0.5 else []
+            out.append(("fixed-count", [op_new(0), op_parse(0, msgs=[m] + tail)]))
     return out
 
 
@@ -493,6 +518,33 @@ def msg_version(m):
     return int(m["raw"]["b"][:4], 16)
 
 
+def alias_versions(rng):
+    """numbers that are NOT decoder versions but coincide with one under a mask, a shift, a byte swap or a narrowing cast
+    (v + 2^j, v * 256, v | 0x8000, 65536 - v …): an allowed set containing them must still allow only themselves"""
+    out = []
+    for v in (5, 7, 9, 10):
+        out += [v + (1 << j) for j in range(3, 16)] + [v * 256, v * 257, 65536 - v, v ^ 0xFFFF, v + 100, v * 10]
+        for L in LITERALS:
+            if 6 <= L < 65536:
+                out += [v + L, v + 2 * L, v + 3 * L, abs(L - v), v * L]      # aliases modulo / around a constant of the source
+    return sorted(set(x for x in out if 0 <= x < 65536 and x not in (5, 7, 9, 10)))
+
+
+ALIASES = None
+
+
+def extra_versions(rng, p=0.3):
+    global ALIASES
+    if ALIASES is None:
+        ALIASES = alias_versions(rng)
+    ex = [v for v in (0, 6, 11, 77, 65535) if rng.random() < p]
+    if rng.random() < 0.5:
+        ex += rng.sample(ALIASES, rng.choice([1, 2, 4, 8]))
+    if rng.random() < 0.1:
+        ex += ALIASES                      # all of them at once
+    return ex
+
+
 def fam_filter(rng, n):
     """C12: allowed set S (p0) against every-version-allowed (p1) on the same buffer and history, and
     an every-version-allowed parser fed only the allowed prefix (p2)"""
@@ -507,7 +559,7 @@ def fam_filter(rng, n):
                 msgs.append(raw_version_msg(rng, rng.choice([0, 1, 4, 6, 8, 11, 77, 65535])))
             else:
                 msgs.extend(rand_packets(rng, ex, 1))
-        S = [v for v in (5, 7, 9, 10) if rng.random() < 0.6] + [v for v in (0, 6, 11, 77, 65535) if rng.random() < 0.3]
+        S = [v for v in (5, 7, 9, 10) if rng.random() < 0.6] + extra_versions(rng, 0.3)
         prefix = []
         ends_in_error = False
         for m in msgs:
@@ -544,7 +596,7 @@ def fam_allowed_mix(rng, n):
     out = []
     for _ in range(n):
         ex = Exporter(rng, lossless=True, simple_ipfix=True)
-        S = [v for v in (5, 7, 9, 10) if rng.random() < 0.7] + [v for v in (0, 1, 6, 8, 11, 77, 65535) if rng.random() < 0.4]
+        S = [v for v in (5, 7, 9, 10) if rng.random() < 0.7] + extra_versions(rng, 0.4) + [v for v in (1, 8) if rng.random() < 0.4]
         msgs = []
         for _ in range(rng.randrange(1, 5)):
             if rng.random() < 0.35:
@@ -639,7 +691,7 @@ def fam_redefine(rng, n, lossless=False):
     return out
 
 
-def fam_rejected_template(rng, n):
+def fam_rejected_template(rng, n, want=()):
     """C06: a template record that the parser REJECTS (no fields, only zero-length fields, cut short) for an id that
     is cached as the other kind or the same kind must leave the caches and later decoding untouched"""
     out = []
@@ -663,15 +715,15 @@ def fam_rejected_template(rng, n):
         dm = {"ipfix": {"m": {"exportTime": 1, "seq": 1, "odid": 1, "sets": [define]}}}
         ops = [op_new(0), op_new(1)]
         for pid in (0, 1):
-            o = op_parse(pid, msgs=[dm], want=[]); o["nospec"] = True; ops.append(o)
-        o = op_parse(0, msgs=[data], want=[]); o["nospec"] = True; ops.append(o)
-        o = op_parse(0, msgs=[bad], want=[]); o["nospec"] = True; ops.append(o)
+            o = op_parse(pid, msgs=[dm], want=list(want)); o["nospec"] = True; ops.append(o)
+        o = op_parse(0, msgs=[data], want=list(want)); o["nospec"] = True; ops.append(o)
+        o = op_parse(0, msgs=[bad], want=list(want)); o["nospec"] = True; ops.append(o)
         ops.append({"op": "assert_unchanged", "a": 0, "key": "C06"})
-        o = op_parse(0, msgs=[data], want=[]); o["nospec"] = True; ops.append(o)
+        o = op_parse(0, msgs=[data], want=list(want)); o["nospec"] = True; ops.append(o)
         # the twin parser never saw the rejected record
-        o = op_parse(1, msgs=[data], want=[]); o["nospec"] = True; ops.append(o)
-        o = op_parse(1, hexs="", want=[]); ops.append(o)
-        o = op_parse(1, msgs=[data], want=[]); o["nospec"] = True; ops.append(o)
+        o = op_parse(1, msgs=[data], want=list(want)); o["nospec"] = True; ops.append(o)
+        o = op_parse(1, hexs="", want=list(want)); ops.append(o)
+        o = op_parse(1, msgs=[data], want=list(want)); o["nospec"] = True; ops.append(o)
         ops.append({"op": "assert_same", "a": 0, "b": 1, "key": "C06", "last_only": True})
         out.append(("rejected-template", ops))
     return out
@@ -714,6 +766,13 @@ def fam_unknown_template(rng, n):
             o = op_parse(0, msgs=[{"ipfix": {"m": {"exportTime": 1, "seq": 1, "odid": 1, "sets": [{bk: {"ts": [bt], "pad": ""}}]}}}], want=[])
             o["nospec"] = True
             ops.append(o)
+        if rng.random() < 0.3:
+            # the template arrives in a packet the parser REFUSES (its version is not allowed at that moment); afterwards the
+            # version is allowed again: the id must still be unknown, the caches untouched
+            ops.append({"op": "allowed", "p": 0, "set": [v for v in (5, 7, 9, 10) if v != proto] + extra_versions(rng, 0.2)})
+            ops.append(op_parse(0, msgs=[tmsg], want=[]))
+            ops.append({"op": "assert_unchanged", "a": 0, "key": "C07"})
+            ops.append({"op": "allowed", "p": 0, "set": [5, 7, 9, 10]})
         before = [msg_v5(rng, 1)] if rng.random() < 0.5 else []
         # the unknown data set is not always the first set of its packet: put a template for ANOTHER id
         # and/or a decodable data set in front of it
@@ -781,6 +840,15 @@ def fam_boundaries(rng):
         fs = (1).to_bytes(2, "big") + (4 + len(body)).to_bytes(2, "big") + body
         data = (300).to_bytes(2, "big") + (4 + 8).to_bytes(2, "big") + bytes(range(8))
         out.append(("boundary-v9-scope-len", [op_new(0), op_parse(0, hexs=hx(v9hdr(1) + fs)), op_parse(0, hexs=hx(v9hdr(1) + data))]))
+    # V9 options template whose SCOPE FIELD TYPE is outside 1..5 (0, 6, 255, 65535) or whose scope/option field lengths are 0,
+    # then options data in the same packet and in a later call
+    for styp in (0, 1, 5, 6, 7, 255, 256, 65535):
+        for slen, olen in ((2, 4), (0, 4), (4, 0)):
+            body = (301).to_bytes(2, "big") + (4).to_bytes(2, "big") + (4).to_bytes(2, "big") + styp.to_bytes(2, "big") + slen.to_bytes(2, "big") + (8).to_bytes(2, "big") + olen.to_bytes(2, "big")
+            fs = (1).to_bytes(2, "big") + (4 + len(body)).to_bytes(2, "big") + body
+            data = (301).to_bytes(2, "big") + (4 + 8).to_bytes(2, "big") + bytes(range(1, 9))
+            out.append(("boundary-v9-scope-type", [op_new(0), op_parse(0, hexs=hx(v9hdr(1) + fs)), op_parse(0, hexs=hx(v9hdr(1) + data)),
+                                                   op_parse(0, hexs=hx(v9hdr(2) + fs + data))]))
     # IPFIX enterprise-bit boundary: field numbers 32767 / 32768 / 65535, with and without room for the PEN
     for num, extra in ((32767, b""), (32768, (9).to_bytes(4, "big")), (32768, b""), (65535, (1).to_bytes(4, "big")), (32769, b"\x00\x00")):
         body = (256).to_bytes(2, "big") + (1).to_bytes(2, "big") + num.to_bytes(2, "big") + (2).to_bytes(2, "big") + extra
@@ -1080,6 +1148,23 @@ def fam_extremal(rng, tier):
     many = {"ipfix": {"m": {"exportTime": 3, "seq": 3, "odid": 1, "sets": [small[1]["ipfix"]["m"]["sets"][0]] * 150 + [small[0]["ipfix"]["m"]["sets"][0]] * 150}}}
     o = op_parse(0, msgs=[many], want=[]); o["nospec"] = True; ops.append(o)
     out.append(("extremal-large-cache-%d" % ncache, ops))
+    # (c4) ONE flowset / set packed with many template records of each kind (cost must stay linear in their number)
+    for M in ([2000] if tier == "quick" else [500, 1000, 2000, 4000]):
+        v9_ts = [{"id": 256 + i, "fieldCount": 1, "fields": [{"typ": 1, "len": 4}]} for i in range(M)]
+        v9_os = [{"id": 256 + i, "scopeLen": 4, "optLen": 4, "scope": [{"typ": 1, "len": 4}], "opts": [{"typ": 1, "len": 4}]} for i in range(M)]
+        ip_ts = [{"id": 256 + i, "fields": [{"typ": 1, "len": 4, "ent": None}]} for i in range(M)]
+        ip_os = [{"id": 256 + i, "scopeCount": 1, "fields": [{"typ": 1, "len": 4, "ent": None}, {"typ": 2, "len": 4, "ent": None}]} for i in range(M)]
+        for nm, msg in (("v9-templates", {"v9": {"m": {"count": 1, "sysUpTime": 1, "unixSecs": 1, "seq": 1, "sourceId": 1, "sets": [{"templates": {"ts": v9_ts, "pad": ""}}]}}}),
+                        ("v9-opt-templates", {"v9": {"m": {"count": 1, "sysUpTime": 1, "unixSecs": 1, "seq": 1, "sourceId": 1, "sets": [{"optTemplates": {"ts": v9_os, "pad": ""}}]}}}),
+                        ("v9-both", {"v9": {"m": {"count": 2, "sysUpTime": 1, "unixSecs": 1, "seq": 1, "sourceId": 1, "sets": [{"templates": {"ts": v9_ts[: M // 2], "pad": ""}}, {"optTemplates": {"ts": v9_os[: M // 2], "pad": ""}}]}}}),
+                        ("ipfix-templates", {"ipfix": {"m": {"exportTime": 1, "seq": 1, "odid": 1, "sets": [{"templates": {"ts": ip_ts, "pad": ""}}]}}}),
+                        ("ipfix-opt-templates", {"ipfix": {"m": {"exportTime": 1, "seq": 1, "odid": 1, "sets": [{"optTemplates": {"ts": ip_os, "pad": ""}}]}}}),
+                        ("ipfix-sets", {"ipfix": {"m": {"exportTime": 1, "seq": 1, "odid": 1, "sets": [{"templates": {"ts": [t], "pad": ""}} for t in ip_ts[: M // 2]] + [{"optTemplates": {"ts": [t], "pad": ""}} for t in ip_os[: M // 4]]}}})):
+            o = op_parse(0, msgs=[msg], want=["export"])
+            o["nospec"] = True
+            o2 = op_parse(0, msgs=[msg], want=[])         # the same definitions again: redefinition of a full cache
+            o2["nospec"] = True
+            out.append(("extremal-many-%s-%d" % (nm, M), [op_new(0), o, o2]))
     # (d) headers announcing 65535 records / fields over short bodies
     for h in ["0005ffff" + "00" * 20, "0007ffff" + "00" * 20, "0009ffff" + "00" * 16, "000a0014" + "00" * 12 + "0002ffff", "000a0018" + "00" * 12 + "00020008" + "0100ffff",
               "0009000100000000000000000000000000000000" + "00000008" + "0100ffff", "000a001a" + "00" * 12 + "0003000a" + "0100ffffffff"]:
